@@ -3,7 +3,8 @@ import PedVerif.Spec.Frozen
 namespace PedVerif.Drv.Frozen
 open Lean PedVerif.Drv PedVerif.Frozen
 
-/-- values: ["a"] None | ["i", n] | ["s", [code points]] | ["t", id, items] | ["l"|"d"|"e", id, items] -/
+/-- values: ["a"] None | ["i", n] | ["s", [code points]] | ["t", id, items] | ["l"|"d"|"e"|"f"|"o", id, items]
+    (list / dict / set / frozenset / instance of a plain class with attributes a0, a1, …) -/
 partial def objOf (j : Json) : Obj :=
   match jTag j with
   | "i" => .atom (.int (jI (jAt j 1)))
@@ -12,6 +13,8 @@ partial def objOf (j : Json) : Obj :=
   | "l" => .box .list (jN (jAt j 1)) ((jL (jAt j 2)).map objOf)
   | "d" => .box .dict (jN (jAt j 1)) ((jL (jAt j 2)).map objOf)
   | "e" => .box .set (jN (jAt j 1)) ((jL (jAt j 2)).map objOf)
+  | "f" => .box .fset (jN (jAt j 1)) ((jL (jAt j 2)).map objOf)
+  | "o" => .box .obj (jN (jAt j 1)) ((jL (jAt j 2)).map objOf)
   | _ => .atom .none
 
 def dfltOf (j : Json) : Dflt :=
@@ -62,7 +65,8 @@ def fieldFacts (self res : Inst) (kw : List (Nat × Obj)) (f : FieldR) : Json :=
           optBoolJ (so.map (fun s => r.ident s)), optBoolJ (so.map (fun s => s.veq r)),
           optBoolJ (ko.map (fun k => r.ident k)), optBoolJ (ko.map (fun k => k.veq r)),
           jNat (match so with | some s => countShared r.mutIds s.mutIds | none => 0),
-          jNat (countShared r.mutIds self.mutIds)]
+          jNat (countShared r.mutIds self.mutIds),
+          optBoolJ (so.map (fun s => s.seq r))]
 
 def sameFields : List (Nat × Obj) → List (Nat × Obj) → Bool
   | [], [] => true
